@@ -188,6 +188,12 @@ def run_queries(aprov, queries, facts, chk=None):
             if len(ref.key) != len(p) + 1 or ref.key[0].value != root["id"]:
                 fails.append(("C07:from_referable:chain-shape", f"key chain {ref.key!r} does not run from the root id "
                               f"through {len(p)} levels"))
+            import re as _re
+            want_types = [_re.sub(r"(?<!^)(?=[A-Z])", "_", m["c"]).upper() for m, _ in chain_of(root, p)]
+            if [k.type.name for k in ref.key] != want_types or ref.type.__name__ != aprov[si][ri]["c"] and not p \
+                    or (p and ref.type.__name__ != chain_of(root, p)[-1][0]["c"]):
+                fails.append(("C07:from_referable:key-types", f"key types {[k.type.name for k in ref.key]} / type "
+                              f"{ref.type.__name__} do not name the classes {want_types} of the elements on the chain"))
             if first_hit(aprov, root["id"]) == (si, ri):
                 if got is not x:
                     fails.append(("C07:from_referable-resolve:not-identical",
